@@ -13,6 +13,36 @@ from common import cN, cbytes, cbool, clist
 IMPORTS = 'From PND Require Import Model.Dimse Corr.CorrC06.\n'
 
 
+class ShortReader(io.RawIOBase):
+    """A raw stream whose read(n) may return fewer than n bytes before the end (io.RawIOBase allows that; sockets,
+    pipes and home-made storage streams do it): every k-th read returns at most `cap` bytes."""
+
+    def __init__(self, data, k, cap):
+        io.RawIOBase.__init__(self)
+        self._b = io.BytesIO(data)
+        self._k, self._cap, self._n = k, cap, 0
+
+    def read(self, n=-1):
+        self._n += 1
+        if n is None or n < 0:
+            return self._b.read()
+        if self._n % self._k == 0:
+            n = min(n, self._cap)
+        return self._b.read(n)
+
+    def seek(self, pos, whence=0):
+        return self._b.seek(pos, whence)
+
+    def tell(self):
+        return self._b.tell()
+
+    def readable(self):
+        return True
+
+    def seekable(self):
+        return True
+
+
 def observe(cls, data_len, pc, m, variant, rng, seed_pat):
     """Run the implementation; returns a case dict."""
     msg = impl.fill_message(cls(), rng)
@@ -23,6 +53,8 @@ def observe(cls, data_len, pc, m, variant, rng, seed_pat):
             msg.data_set = data
         elif variant == 'bytesio':
             msg.data_set = io.BytesIO(data)
+        elif variant == 'shortread':
+            msg.data_set = ShortReader(data, 1 + seed_pat % 7, 3 + seed_pat % 50)
         elif variant == 'bytesio_off':
             # a stream positioned after a header, as storage_scu positions a Part-10 file after its meta group:
             # the data set is what follows the current position
@@ -39,8 +71,17 @@ def observe(cls, data_len, pc, m, variant, rng, seed_pat):
     obs = []
     one = True
     cmd = b''
+    refused = False
     try:
-        cmd, pdus = impl.send_and_collect(msg, pc, m)
+        try:
+            assoc = impl.stub_assoc(m)
+            assoc.send(msg, pc)                       # the caller's thread
+        except Exception as e:  # noqa
+            refused = True
+            raise
+        from pynetdicom2 import dsutils
+        cmd = dsutils.encode(msg.command_set, True, True)
+        pdus = list(assoc.dul.sent[0])                # the provider's thread
         for p in pdus:
             items = p.data_value_items
             if len(items) != 1:
@@ -54,7 +95,7 @@ def observe(cls, data_len, pc, m, variant, rng, seed_pat):
     except Exception as e:  # noqa
         err = type(e).__name__
     return dict(cls=cls.__name__, data_len=data_len, pc=pc, m=m, variant=variant, seed_pat=seed_pat,
-                cmd=cmd, data=data, obs=obs, one=one, err=err)
+                cmd=cmd, data=data, obs=obs, one=one, err=err, refused=refused)
 
 
 def render(c):
@@ -75,9 +116,9 @@ def render(c):
             term = cbytes(pl)
         parts.append('(%d, %d, %s)' % (ctx, ctl, term))
     dterm = '(pat %d %d)' % (c['seed_pat'], len(data)) if len(data) else '[]'
-    return ('(let C := %s in let D := %s in mk C D %d %d %s %s)' %
-            (cbytes(c['cmd']), dterm, c['pc'], c['m'], clist(parts),
-             cbool(c['one'] and c['err'] is None)))
+    return ('(let C := %s in let D := %s in mk C D %d %d %s %s %s)' %
+            (cbytes(c['cmd']) if c['cmd'] else '[]', dterm, c['pc'], c['m'], clist(parts),
+             cbool(c['one'] and c['err'] is None), cbool(c['refused'])))
 
 
 def gen_cases(tier, rng):
@@ -115,6 +156,9 @@ def gen_cases(tier, rng):
                 add(dm.CGetRQMessage, n, 7, m, 'bytes' if n == 1 else 'bytesio')
     for n in (0, 1, 65529, 65530, 65531, 131060, 131061):   # no maximum in force (0): fragments of 65530
         add(dm.CStoreRQMessage, n, 3, 0, ['bytes', 'bytesio', 'file'][n % 3])
+    for m in range(1, 7):                             # maxima that cannot carry a fragment: the send is refused
+        for n in (0, 1, 20):
+            add(dm.CEchoRQMessage if n == 0 else dm.CStoreRQMessage, n, 1, m, ['bytes', 'bytesio', 'file'][m % 3])
     for pc in range(1, 256):                         # presentation context ids 1..255
         add(dm.NSetRQMessage, pc % 5, pc, 16 + pc % 3)
     if tier != 'quick':
@@ -132,11 +176,28 @@ def main(tier, seed):
     os.makedirs(common.BUILD, exist_ok=True)
     specs = gen_cases(tier, rng)
     obs = [observe(cls, n, pc, m, v, rng, sp) for (cls, n, pc, m, v, sp) in specs]
+    # streams with short reads: where the reads fall is the stream's business, so the fragment boundaries are not
+    # the model's (which reads full chunks); the property's oracle applies all the same (size bound, flags, content)
+    from pynetdicom2 import dimsemessages as dm_
+    short_specs = []
+    for m in ((7, 8, 20, 64, 1024, 4102) if tier == 'quick' else (7, 8, 9, 20, 33, 64, 100, 1024, 4102, 16384)):
+        for sp in range(1, 15 if tier == 'quick' else 60):      # the seed decides which reads are short and how short
+            for mult in (2, 5):
+                short_specs.append((dm_.CStoreRQMessage, mult * (m - 6) + sp % 4, 1 + 2 * (sp % 100), m, 'shortread', sp))
+    short_obs = [observe(cls, n, pc, m, v, rng, sp) for (cls, n, pc, m, v, sp) in short_specs]
     terms = [render(c) for c in obs]
     run = common.CoqRun('C06')
     failing, broken, n_obl, n_ok = common.run_sharded(
         run, 'Cases', IMPORTS, 'case', terms,
         [('corr', 'check_corr'), ('spec', 'check_spec')], size=60)
+    f2, b2, n2, k2 = common.run_sharded(run, 'Short', IMPORTS, 'case', [render(c) for c in short_obs],
+                                        [('corr', 'check_corr', 'stat'), ('spec', 'check_spec')], size=60)
+    off = len(obs)
+    obs = obs + short_obs
+    failing = dict(corr=failing['corr'], spec=failing['spec'] + [off + i for i in f2['spec']])
+    broken += b2
+    n_obl += n2
+    n_ok += k2
     dec.obligations(n_obl, n_ok)
     cov = dec.coverage
     cov['evaluations'] = len(obs)
@@ -144,9 +205,9 @@ def main(tier, seed):
     cov['distinct_nontrivial'] = len(nontriv)
     cov['rule'] = ('exhaustive box m in 7..%d x |data| in 0..3(m-6)+2; all 23 classes x m in {7,64,1024}; '
                    'lengths within +-2 of k(m-6) for large m; 2^k-1,2^k,2^k+1 up to 2^32-1; pc ids 1..255; '
-                   'bytes / BytesIO / real file, the streams also positioned after a header; non-trivial = at least two fragments' % (20 if tier == 'quick' else 40))
+                   'bytes / BytesIO / real file, the streams also positioned after a header, and raw streams with short reads; non-trivial = at least two fragments' % (20 if tier == 'quick' else 40))
     cov['distribution'] = dict(
-        variants=dict((v, sum(1 for c in obs if c['variant'] == v)) for v in ('bytes', 'bytesio', 'bytesio_off', 'file', 'file_off')),
+        variants=dict((v, sum(1 for c in obs if c['variant'] == v)) for v in ('bytes', 'bytesio', 'bytesio_off', 'file', 'file_off', 'shortread')),
         fragments_max=max(len(c['obs']) for c in obs), with_data=sum(1 for c in obs if c['data_len']),
         impl_errors=sum(1 for c in obs if c['err']))
     cov['samples'] = [dict(cls=c['cls'], m=c['m'], data_len=c['data_len'], pc=c['pc'], variant=c['variant'],
